@@ -386,7 +386,9 @@ func scenarios(tier string) []*vx.Scenario {
 	// the same with real time in it: the new transport has latency L per frame, the answer to the
 	// in-flight poll takes 0..4.5 L, and the emitters start at every half L of the upgrade
 	L := 100 * time.Millisecond
-	for _, pl := range []time.Duration{0, L / 2, 3 * L / 2, 5 * L / 2, 7 * L / 2, 9 * L / 2} {
+	// (the last two: an answer that crawls through a slow or buffering HTTP path for longer than any
+	// plausible grace period, but well within the poll / ping timeouts)
+	for _, pl := range []time.Duration{0, L / 2, 3 * L / 2, 5 * L / 2, 7 * L / 2, 9 * L / 2, 1500 * time.Millisecond, 30 * time.Second} {
 		for k := 0; k <= 8; k++ {
 			for _, gap := range []time.Duration{0, L} {
 				tm := sioTiming{PollRespLat: pl, PipeLat: L, EmitAt: time.Duration(k) * L / 2, Gap: gap}
@@ -416,7 +418,7 @@ func main() {
 	vx.Main(vx.Config{
 		Property:  "C07",
 		Level:     "model_checking",
-		Rule:      "real Engine.IO client and server over the in-process polling link; a client sender and a server sender (numbered text/binary messages) run concurrently with the real upgrade state machines driven over a reliable duplex pipe as candidate transport; all schedules to the deviation bound (thread choices and select choices), for the fault-free upgrade and for every failure step of the candidate (handshake refused, probe ping/pong lost = stall until the upgrade timeout, cut before ping / pong / UPGRADE, UPGRADE lost). distinct_nontrivial = deviating schedules",
+		Rule:      "real Engine.IO client and server over the in-process polling link; a client sender and a server sender (numbered text/binary messages) run concurrently with the real upgrade state machines driven over a reliable duplex pipe as candidate transport; all schedules to the deviation bound (thread choices and select choices), for the fault-free upgrade and for every failure step of the candidate (handshake refused, probe ping/pong lost = stall until the upgrade timeout, cut before ping / pong / UPGRADE, UPGRADE lost); the same upgrade under a real Socket.IO server and Manager exchanging events with 0-2 binary attachments: pure schedule exploration and a timed grid (answer to the in-flight poll delayed by 0..4.5 L, 1.5 s, 30 s x emitters starting at k*L/2, k=0..8 x gap 0/L; pipe latency L=100 ms). distinct_nontrivial = deviating schedules",
 		Scenarios: scenarios,
 		Budget: func(tier string) time.Duration {
 			if tier == "thorough" {
